@@ -62,7 +62,8 @@ def gen_grid(rng):
 
 
 KINDS = ['random-walk', 'single-cell', 'long-crossing', 'on-grid-lines', 'meridian-run',
-         'parallel-run', 'west-south', 'antimeridian', 'repeated-points', 'corners']
+         'parallel-run', 'west-south', 'antimeridian', 'repeated-points', 'corners',
+         'micro-segments']
 
 
 def gen_path(rng, kind, lat_g, lon_g):
@@ -128,6 +129,31 @@ def gen_path(rng, kind, lat_g, lon_g):
         for _ in range(n - 1):
             lats.append(lats[-1] - rng.uniform(0, step))
             lons.append(lons[-1] - rng.uniform(0, step))
+    elif kind == 'micro-segments':
+        # near-duplicate point pairs (3e-9 .. 1e-3 m apart: position noise of a parked
+        # aircraft, the same waypoint converted twice) that straddle a grid line
+        for _ in range(n - 1):
+            lats.append(lats[-1] + rng.uniform(-step, step))
+            lons.append(lons[-1] + rng.uniform(-step, step))
+        out_la, out_lo = [], []
+        for la, lo in zip(lats, lons):
+            la, lo = inside(la, lo)
+            out_la.append(la)
+            out_lo.append(min(lo, PI - 1e-6))
+            if rng.random() < 0.6:
+                dth = 10 ** rng.uniform(-8.5, -3) / 6.371e6
+                f = rng.uniform(0.1, 0.9)
+                if rng.random() < 0.5:
+                    g = float(lat_g[max(1, cell_index(lat_g, la))])
+                    out_la[-1] = g - f * dth
+                    out_la.append(g + (1 - f) * dth)
+                    out_lo.append(out_lo[-1])
+                else:
+                    g = float(lon_g[max(1, cell_index(lon_g, out_lo[-1]))])
+                    out_lo[-1] = g - f * dth
+                    out_lo.append(g + (1 - f) * dth)
+                    out_la.append(out_la[-1])
+        return np.array(out_la), np.array(out_lo)
     elif kind == 'repeated-points':
         for _ in range(n - 1):
             if rng.random() < 0.5:
@@ -167,6 +193,21 @@ def gen_path(rng, kind, lat_g, lon_g):
         out_la.append(la)
         out_lo.append(min(lo, PI - 1e-6))
     return np.array(out_la), np.array(out_lo)
+
+
+def crossing_noise(lat_a, lon_a, lat_b, lon_b):
+    """How well the point where a segment meets a grid line is determined by the
+    floating-point coordinates at all, as a fraction of the segment: one ulp of the
+    coordinate across the line moves the crossing by ulp / |delta| of the segment.  Only
+    segments nearly parallel to a grid line (|delta| of a few hundred ulps) get a
+    noticeable value; capped at 0.45."""
+    eps = 0.0
+    dlat, dlon = abs(lat_b - lat_a), abs(lon_b - lon_a)
+    if dlat > 0:
+        eps += 8 * float(np.spacing(max(abs(lat_a), abs(lat_b)))) / dlat
+    if dlon > 0:
+        eps += 8 * float(np.spacing(max(abs(lon_a), abs(lon_b)))) / dlon
+    return min(0.45, eps)
 
 
 # ---------------------------------------------------------------------------
@@ -338,3 +379,81 @@ def make_case(rng, k, M):
 def crosses(lons):
     d = np.diff(lons)
     return np.abs(d) > PI
+
+
+def huge_track(rng, npts):
+    """One trajectory with more points than 2**16 (a 1 Hz track of a long flight): vectorised
+    checks only.  -> (list of (mechanism, detail), description)"""
+    import AEIC.gridding.grid as grid_mod
+
+    res = rng.choice([0.5, 1.0, 2.0])
+    lat_g = np.deg2rad(np.arange(-90.0, 90.0, res))
+    lon_g = np.deg2rad(np.arange(-180.0, 180.0, res))
+    lon_g[0] = -PI
+    step = math.radians(35.0 / npts)
+    nprng = np.random.default_rng(rng.getrandbits(32))
+    lats = math.radians(rng.uniform(-30, 30)) + np.cumsum(nprng.uniform(-0.2, 1.0, npts)) * step
+    lons = math.radians(rng.uniform(-150, 60)) + np.cumsum(nprng.uniform(0.2, 1.0, npts)) * step
+    gap = rng.choice([2 ** 16 - 1, 2 ** 16, 2 ** 16 + 1])     # a data gap right at the boundary
+    if gap < npts - 1:
+        lats[gap + 1:] += math.radians(0.8)
+        lons[gap + 1:] += math.radians(1.3)
+    integ = nprng.uniform(0.5, 2.0, npts - 1)
+    desc = {'points': npts, 'grid_res_deg': res, 'gap_after_point': gap}
+    probs = []
+    try:
+        cl, co, ca, ct, sv, iv = run_gridder(grid_mod.Gridder, lat_g, lon_g, None, None, lats,
+                                             lons, None, None, [], [integ])
+    except Exception as e:  # noqa: BLE001
+        return [('gridding a path inside the grid raised',
+                 {'error': f'{type(e).__name__}: {str(e)[:200]}', **desc})], desc
+    if not (len(cl) == len(co) == len(sv[0]) == len(iv[0])):
+        return [('output arrays have different lengths',
+                 {'lengths': [len(cl), len(co), len(sv[0]), len(iv[0])], **desc})], desc
+    seg = np.rint(np.asarray(sv[0])).astype(np.int64)
+    vals = np.asarray(iv[0], float)
+    sums = np.bincount(seg, weights=vals, minlength=npts - 1)[:npts - 1]
+    count = np.bincount(seg, minlength=npts - 1)[:npts - 1]
+    missing = np.flatnonzero(count == 0)
+    if len(missing):
+        probs.append(('a segment produced no piece at all',
+                      {'segments': missing[:5].tolist(), 'n_missing': int(len(missing)), **desc}))
+    # segments are at most a few km long: straight line == geodesic to 1e-7
+    bad = np.flatnonzero((count > 0) & ((sums < integ * (1 - 1e-9)) | (sums > integ * (1 + 1e-5))))
+    if len(bad):
+        b = int(bad[0])
+        probs.append(('pieces of a segment add up to less than the segment\'s value'
+                      if sums[b] < integ[b] else
+                      'pieces of a segment add up to more than the allowed excess',
+                      {'segment': b, 'value': float(integ[b]), 'sum_of_pieces': float(sums[b]),
+                       'n_bad': int(len(bad)), **desc}))
+    tot_in, tot_out = float(integ.sum()), float(vals.sum())
+    if not (tot_in * (1 - 1e-9) <= tot_out <= tot_in * (1 + 1e-5)):
+        probs.append(('gridded total differs from the trajectory total',
+                      {'total_in': tot_in, 'total_out': tot_out, **desc}))
+    # first piece of every segment lies in the cell of the segment's start point, the last
+    # one in the cell of its end point (points are generated off the grid lines)
+    first = np.full(npts - 1, -1)
+    last = np.full(npts - 1, -1)
+    idx = np.arange(len(seg))
+    last[seg] = idx                         # later pieces overwrite: path order
+    first[seg[::-1]] = idx[::-1]
+    ok = count > 0
+    ci = np.searchsorted(lat_g, lats, side='right') - 1
+    cj = np.searchsorted(lon_g, lons, side='right') - 1
+    pi_ = np.abs(lat_g[:, None] - np.asarray(cl)[None, :]).argmin(axis=0) if len(cl) < 1 else \
+        np.searchsorted(lat_g, np.asarray(cl) + 1e-12, side='right') - 1
+    pj_ = np.searchsorted(lon_g, np.asarray(co) + 1e-12, side='right') - 1
+    s_ok = np.flatnonzero(ok)
+    wrong = s_ok[(pi_[first[s_ok]] != ci[s_ok]) | (pj_[first[s_ok]] != cj[s_ok])
+                 | (pi_[last[s_ok]] != ci[s_ok + 1]) | (pj_[last[s_ok]] != cj[s_ok + 1])]
+    if len(wrong):
+        w = int(wrong[0])
+        probs.append(('a piece is attributed to a cell that does not contain that part of the '
+                      'segment', {'segment': w, 'n_wrong': int(len(wrong)),
+                                  'start_cell': [int(ci[w]), int(cj[w])],
+                                  'first_piece_cell': [int(pi_[first[w]]), int(pj_[first[w]])],
+                                  'end_cell': [int(ci[w + 1]), int(cj[w + 1])],
+                                  'last_piece_cell': [int(pi_[last[w]]), int(pj_[last[w]])],
+                                  **desc}))
+    return probs, desc
